@@ -126,6 +126,7 @@ struct EdgeResult {
     why_c07: Vec<String>,
     reply_ok: Option<bool>,
     tool_error: Option<String>,
+    failed_start: Option<bool>,
 }
 
 async fn run_edge(clock: &Clock, scale: Scale, keys: &[u64], pre: &(Set2, Snapshot), e: &Value, n: u64) -> EdgeResult {
@@ -148,7 +149,7 @@ async fn run_edge(clock: &Clock, scale: Scale, keys: &[u64], pre: &(Set2, Snapsh
         .as_array()
         .map(|a| a.iter().map(|p| (p[0].as_u64().unwrap(), scale.ts(&p[1]).unwrap())).collect())
         .unwrap_or_default();
-    let mut res = EdgeResult { set: Set2::default(), snap: vec![], why_c02: vec![], why_c07: vec![], reply_ok: None, tool_error: None };
+    let mut res = EdgeResult { set: Set2::default(), snap: vec![], why_c02: vec![], why_c07: vec![], reply_ok: None, tool_error: None, failed_start: None };
     let crash = outcome == "crash-mid" || kind == "restart";
 
     match outcome {
@@ -197,6 +198,24 @@ async fn run_edge(clock: &Clock, scale: Scale, keys: &[u64], pre: &(Set2, Snapsh
         // the node is gone: a new group is started on the same storage
         drop(actor);
         drop(group);
+        if let Some(which) = op["fail"].as_str() {
+            // first a start that meets a storage read error: it is refused, or what it built is what storage holds
+            let store1 = Arc::new(FaultyStore::on(inner.clone()));
+            *store1.fail_read.lock() = Some(if which == "list" { "list" } else { "meta" });
+            let group1 = KeyspaceGroup::new(store1.clone(), clock.clone()).await;
+            tokio::time::sleep(Duration::from_millis(1)).await;
+            let started = group1.load_states_from_storage().await.is_ok();
+            // (on a storage without keyspaces there is no metadata scan that could fail)
+            res.failed_start = Some(store1.fail_read.lock().is_none());
+            if started && res.failed_start == Some(true) {
+                let a1 = group1.get_or_create_keyspace(&ks).await;
+                let set1 = decode_set(&a1.send(Serialize).await.expect("serialize"));
+                let (snap1, _) = read_storage(&inner, &ks, keys).await;
+                for w in agree(&set1, &snap1, keys) {
+                    res.why_c07.push(format!("a start whose storage read ({which}) failed reported success, and then: {w}"));
+                }
+            }
+        }
         let store2 = Arc::new(FaultyStore::on(inner.clone()));
         let group2 = KeyspaceGroup::new(store2, clock.clone()).await;
         tokio::time::sleep(Duration::from_millis(1)).await;
@@ -276,6 +295,7 @@ pub fn main() {
     let mut missing_from = 0u64;
     let mut by_kind: BTreeMap<String, u64> = BTreeMap::new();
     let (mut crash_edges, mut failed_storage_edges) = (0u64, 0u64);
+    let mut failed_starts = 0u64;
     let (mut effective_purges, mut effective_purge_failures) = (0u64, 0u64);
     let mut rt: Option<(tokio::runtime::Runtime, Clock)> = None;
     let mut in_rt = 0u64;
@@ -332,6 +352,9 @@ pub fn main() {
         if outcome == "crash-mid" || kind == "restart" {
             crash_edges += 1;
         }
+        if r.failed_start == Some(true) {
+            failed_starts += 1;
+        }
         if outcome == "fail" {
             failed_storage_edges += 1;
         }
@@ -381,6 +404,7 @@ pub fn main() {
     sum.set("missing_from", missing_from);
     sum.set("by_kind", json!(by_kind));
     sum.set("crash_edges", crash_edges);
+    sum.set("failed_start_edges", failed_starts);
     sum.set("failed_storage_edges", failed_storage_edges);
     sum.set("effective_purges", effective_purges);
     sum.set("effective_purge_failures", effective_purge_failures);
